@@ -8,6 +8,9 @@ func init() {
 		// replications/internal cannot be imported from outside replications/...: its constructor is re-exported
 		// through a one-line file added to the (light) package replications/mock at build time.
 		ExtraOverlay: map[string]string{"replications/mock/zz_verif_export.go": "h/repl/export.go.txt"},
+		// a 10 MiB queue segment never fills with the kilobyte batches of a simulated run: segment roll-over, the
+		// head-segment trim and "this append fills the segment" would stay unreachable
+		Knobs: map[string][2]string{"pkg/durablequeue/queue.go": {"DefaultSegmentSize = 10 * 1024 * 1024", "DefaultSegmentSize = 2 * 1024"}},
 		Cfgs: []cfgSpec{
 			{Name: "scripted-remote", Cfg: "imgcap=3,cutden=12", Gating: true, Share: 5},
 			{Name: "scripted-remote-no-crash", Cfg: "nocrash", Gating: true, Share: 2},
